@@ -1,5 +1,6 @@
 import GnarkVerif.Model.Util
 import GnarkVerif.Model.Alg
+import GnarkVerif.Model.PointOps
 /-
 C04 — executable model of the multi-exponentiation of gnark-crypto
 (`ecc/<curve>/multiexp.go`, `multiexp_jacobian.go`, `multiexp_affine.go`, `internal/parallel/execute.go`).
@@ -508,7 +509,16 @@ def shapeVectors (limbs bits r : Nat) (shape : Nat) (A S : Array Nat) : Array Na
            mk (fun i => s ((i / 4) % 1024)))
   | 12 => (A, mk (fun i => s i / 2^(bits - 14) * 2^(bits - 14)))           -- only the top chunk is hit
   | 13 => (mk (fun i => a (i % 2)), mk (fun i => s (i % 3)))               -- tiny pools
-  | _ => (A, S)
+  | 14 => (A, mk (fun i => r - (1 + i % 7)))                               -- small negatives r−1 … r−7
+  | _ =>
+    -- parametrised scalar shapes `kind·0x1000 + k` (which windows are hit → chunk statistics)
+    let k := shape % 4096
+    match shape / 4096 with
+    | 1 => (A, mk (fun i => s i % 2^k))                                    -- k-bit scalars
+    | 2 => (A, mk (fun i => r - 1 - s i % 2^k))                            -- r−1−(k-bit value)
+    | 3 => (A, mk (fun i => s i / 2^k * 2^k))                              -- low k bits cleared
+    | 4 => (A, mk (fun i => s i / 2^k % 65536 * 2^k))                      -- 16-bit band at bit k
+    | _ => (A, S)
 
 structure Line where
   cfg : Cfg
@@ -568,9 +578,12 @@ def parseList (s : String) : List Nat := (s.splitOn ",").map parseHexD
 def showRes {α : Type} (E : Curve α) (G : Pt α) (e : Nat) : String :=
   if !E.onCurve G then "bad-generator" else E.showPt (E.smul (Int.ofNat e) G)
 
-/-- tower descriptor `1` | `2:β` | `4:β:γ0,γ1`; elements are comma separated hex lists -/
+/-- tower descriptor `1` | `2:β` | `4:β:γ0,γ1`; elements are comma separated hex lists.
+The base field is `PointOps.fpE` (= `Alg.fp` with the inverse computed by the extended Euclidean algorithm instead of
+`a^(q-2)`, the dictionary of the C02 specification): same textbook group law, ~10× cheaper per line. -/
 def pointResult (tower p a b gx gy : String) (e : Nat) : String :=
   let q := parseHexD p
+  let fp := GV.PointOps.fpE
   match tower.splitOn ":" with
   | ["1"] =>
     let E : Curve Nat := { F := fp q, a := parseHexD a, b := parseHexD b }
